@@ -1346,6 +1346,11 @@ impl<'a> Runtime<'a> {
                 }
             }
             Expr::Index { .. } => {
+                // An index chain that starts at a call or a literal denotes a temporary,
+                // like the receivers handled by the last arm.
+                if !Self::index_chain_starts_at_variable(object) {
+                    return Err(RuntimeError::new(RuntimeErrorKind::TypeMismatch, span));
+                }
                 let (base_expr, base_var, index_exprs) = self.flatten_index_target(object);
 
                 let mut evaluated_indices = Vec::with_capacity_in(index_exprs.len(), self.frame);
@@ -1429,6 +1434,11 @@ impl<'a> Runtime<'a> {
                 }
             }
             Expr::Index { .. } => {
+                // An index chain that starts at a call or a literal denotes a temporary,
+                // like the receivers handled by the last arm.
+                if !Self::index_chain_starts_at_variable(object) {
+                    return Err(RuntimeError::new(RuntimeErrorKind::TypeMismatch, span));
+                }
                 let (base_expr, base_var, index_exprs) = self.flatten_index_target(object);
 
                 let mut evaluated_indices = Vec::with_capacity_in(index_exprs.len(), self.frame);
@@ -1727,6 +1737,13 @@ impl<'a> Runtime<'a> {
         }
 
         unreachable!("Index assignment should return inside loop");
+    }
+
+    fn index_chain_starts_at_variable(mut target: ExprRef<'a>) -> bool {
+        while let Expr::Index { array, .. } = target {
+            target = array;
+        }
+        matches!(target, Expr::Var(..))
     }
 
     fn flatten_index_target(
